@@ -751,6 +751,8 @@ class PDFDocument:
         self._cached_objs: Dict[int, Tuple[object, int]] = {}
         self._parsed_objs: Dict[int, Tuple[List[object], int]] = {}
         self._parsing_objs: Set[int] = set()
+        self._fallback = fallback
+        self._rescue_xref: Optional[PDFXRefFallback] = None
         self._parser = parser
         self._parser.set_document(self)
         self.is_printable = self.is_modifiable = self.is_extractable = True
@@ -877,6 +879,27 @@ class PDFDocument:
         (_, obj) = self._parser.nextobject()
         return obj
 
+    def _xrefs_after_failure(self, failed: List[int]) -> Iterator[PDFBaseXRef]:
+        """The cross-reference to try when the listed ones are exhausted.
+
+        When an object is listed but its entry does not lead to it, the
+        cross-reference data is damaged: the body is scanned (once per
+        document) the way it is when no cross-reference can be read at all.
+        """
+        if not failed or not self._fallback or self._parser is None:
+            return
+        if any(isinstance(xref, PDFXRefFallback) for xref in self.xrefs):
+            return
+        if self._rescue_xref is None:
+            # registered before loading: loading parses objects, which may
+            # need objects that are found by the same scan.
+            self._rescue_xref = PDFXRefFallback()
+            try:
+                self._rescue_xref.load(self._parser)
+            except (PSEOF, PDFSyntaxError):
+                pass
+        yield self._rescue_xref
+
     # can raise PDFObjectNotFound
     def getobj(self, objid: int) -> object:
         """Get object from PDF
@@ -890,7 +913,8 @@ class PDFDocument:
         if objid in self._cached_objs:
             (obj, genno) = self._cached_objs[objid]
         else:
-            for xref in self.xrefs:
+            failed: List[int] = []
+            for xref in itertools.chain(self.xrefs, self._xrefs_after_failure(failed)):
                 try:
                     (strmid, index, genno) = xref.get_pos(objid)
                 except KeyError:
@@ -934,6 +958,7 @@ class PDFDocument:
                         obj.set_objid(objid, genno)
                     break
                 except (PSEOF, PDFSyntaxError):
+                    failed.append(objid)
                     continue
             else:
                 raise PDFObjectNotFound(objid)
